@@ -254,6 +254,25 @@ PROPS['C04'] = {
     ],
 }
 
+PROPS['C05'] = {
+    'title': 'Planar area and ring orientation are exact up to rounding',
+    'level': 'proof',
+    'verus': [],
+    'kani_extra': ['--no-memory-safety-checks', '--no-overflow-checks', '--no-assertion-reach-checks'],
+    'kani': [
+        ('geo', 'c05.rs', r'^c05_k_ring_area_open_', 'complete', 'quick'),
+        ('geo', 'c05.rs', r'^c05_k_(polygon_area_|rect_tri_collection_area|orient_default_ccw_ccw|orient_reversed_cw_cw|winding_tri_0_none|winding_tri_0_dupclose)', 'bounded', 'quick'),
+        ('geo', 'c05.rs', r'^c05_k_ring_area_closed_3$', 'complete', 'thorough'),
+        ('geo', 'c05.rs', r'^c05_k_(orient_default_cw_cw|orient_reversed_ccw_cw|winding_tri_1_dup0|winding_tri_2_dup2|winding_tri_1_dupclose|winding_tri_2_dupclose|make_winding_0)$', 'bounded', 'thorough'),
+    ],
+    'trusted': ['ring area / winding order: scalar i16 on the lattice |c| <= 5 (products fit: exact), triangles incl. a repeated vertex anywhere; complete for that lattice',
+                'Polygon / Rect / Triangle / MultiPolygon areas and orient: concrete literal shapes (8x8 shell, two holes) at offsets 0 and +-1e8, every listed combination of ring windings; robust::orient2d stubbed by its assumed contract in the orient harnesses'],
+    'undecided_clauses': [
+        'rounding bound for non-lattice coordinates ("within a few units of rounding")',
+        'GeometryCollection areas (recursive Geometry delegation: CBMC timeout); rings with more than 3 distinct vertices for winding_order / ring area',
+    ],
+}
+
 NOT_APPLICABLE = {
     'C16': 'every clause is an identity between compositions of sin/cos/atan2/asin/sqrt/tan/ln in f64 (or calls into geographiclib-rs); Verus leaves float arithmetic uninterpreted and CBMC models libm as nondeterministic, so no contract stronger than "returns an f64" is provable',
     'C09': 'no contract within reach decides it: Verus cannot take compute_rdp / visvalingam (iterator adaptor chains, BinaryHeap, R-tree, closures without specs); Kani/CBMC does not finish symbolic execution of simplify on a 3-vertex line string even with a concrete tolerance (measured: > 900 s; the sqrt inside the distance kernel makes every distance symbolic and the recursion then runs over slices of symbolic length). The attempted contract is kept in contracts/kani/geo/c09_rdp.rs',
